@@ -112,6 +112,11 @@ structure IInvB (s : State) (i : Inst) : Prop where
   closes : (s.inst i).closes = if (s.inst i).st = .closed then 1 else 0
   no_bad : (s.inst i).badClose = false
 
+/-- the entry a removing thread works on -/
+def Pc.rmRef : Pc → Option Ref
+  | .rmWaitLoad r | .rmSetClosing r | .rmClosingWait r _ | .inClose r _ => some r
+  | _ => none
+
 /-- what a thread's pc / result says about instances -/
 structure TInvB (s : State) (th : Thread) : Prop where
   held_id : ∀ r, th.pc.holds = some r → (s.heap r).id = th.op.id
@@ -119,7 +124,10 @@ structure TInvB (s : State) (th : Thread) : Prop where
     i < s.nInst ∧ (s.inst i).st.loaded = true ∧ (s.inst i).id = th.op.id
   ret_objs : ∀ l i, th.pc = .done (.objs l) → i ∈ l → i < s.nInst ∧ (s.inst i).st.loaded = true
   commit_live : ∀ r i ab, th.pc = .loadCommit r (some i) ab → (s.inst i).st = .live
+  same_target : ∀ id tgt r, th.op = .removeSame id (some tgt) → th.pc.rmRef = some r →
+    (s.heap r).value = some tgt
   load_loading : ∀ r i, th.pc = .inLoad r i → (s.inst i).st = .loading
+  remove_op : th.pc = .removeLookup → ∀ id tgt, th.op ≠ .removeSame id tgt
 
 structure InvB (s : State) : Prop where
   ent : ∀ r, r < s.nHeap → EInvB s r
@@ -192,6 +200,10 @@ def RemovedNotReturned (s : State) : Prop :=
   ∀ t, t < s.nThr → ∀ i,
     ((s.thr t).pc = .done (.val i) → i ∉ (s.thr t).stale) ∧
     (∀ l, (s.thr t).pc = .done (.objs l) → i ∈ l → i ∉ (s.thr t).stale)
+
+/-- identity-checked removal: a `RemoveSame(id, v)` only ever closes `v` -/
+def RemoveSameOnlyTarget (s : State) : Prop :=
+  ∀ t, t < s.nThr → ∀ id tgt r i, (s.thr t).op = .removeSame id (some tgt) → (s.thr t).pc = .inClose r i → i = tgt
 
 def NoPanic (s : State) : Prop :=
   s.panicked = false ∧ ∀ t, t < s.nThr → (s.thr t).pc ≠ .done .panic
